@@ -600,7 +600,7 @@ func parent(known []knownFinding) int {
 			index := w
 			merged := &workerOut{}
 			first := true
-			for attempt := 0; attempt < 4; attempt++ {
+			for attempt := 0; attempt < 300; attempt++ {
 				secs := int(time.Until(deadline).Seconds())
 				if !first && (secs < 2 || *fRuns > 0) {
 					break
@@ -620,12 +620,8 @@ func parent(known []knownFinding) int {
 				err := cmd.Run()
 				var out workerOut
 				if jerr := json.Unmarshal(stdout.Bytes(), &out); jerr == nil {
-					if first {
-						ch <- wres{&out, nil, ""}
-					} else {
-						mergeOut(merged, &out)
-						ch <- wres{merged, nil, ""}
-					}
+					mergeOut(merged, &out)
+					ch <- wres{merged, nil, ""}
 					return
 				}
 				// the worker process died: was it the code under test taking the process down?
